@@ -62,10 +62,23 @@ CHECKS = {
          "buffer + offset index + counters + should_gc + the purge cursor walk) next to the mathematical set/map, and TLC "
          "checks I => A over all bounded histories. TLC-exported histories are replayed on the real containers (several "
          "instantiations incl. the top of the uint32 range and ids beyond 2^32) comparing every return value, size, "
-         "ascending iteration, lookup list and every live handle's content.",
+         "ascending iteration, lookup list and every live handle's content. An extension (five ContainersExt* specs, "
+         "checks/C15ext.py, harness/containersext_replay.cpp) treats the containers as values and adds what the base specs leave "
+         "out: two IdSetDense / IdSetSmall objects with copy and move construction, copy and move assignment (also onto a "
+         "non-empty set and onto itself), swap, unset() on never-allocated chunks, iteration after clear(), merge_sorted() with "
+         "itself / empty / overlapping operands; nwr_array<IdSetDense|IdSetSmall> as three independent sets reached through "
+         "operator()(type), nodes()/ways()/relations() and begin()..end(); RelationsMapStash with ids exactly at 2^32-1 and 2^32, "
+         "size()/empty()/sizes(), add_members(), stash and indexes as movable values, every builder on every stash including the "
+         "empty one; ItemStash with the REAL should_gc() thresholds (a model entry is a block of 1000 / 999 / 1 add_item() calls: "
+         "collection exactly at 10000 removed, at the start and in the middle of a block, the removed/live ratio deciding between "
+         "collecting and doubling), clear() and reuse, buffer growth, used_memory() against the capacity the spec predicts. Every "
+         "exported history is replayed in a build with and a build without the library's assertions.",
     design_ref="DESIGN.md section 4, C15",
     note="Scaled-down geometry embedded border-preservingly into the real id space; ItemStash GC threshold lowered through "
-         "the OSMIUM_VERIF_STASH_GC_MIN hook; histories bounded (depth 7-14).",
+         "the OSMIUM_VERIF_STASH_GC_MIN hook in the base part; histories bounded (depth 7-14). Extension: a moved-from IdSetDense is "
+         "treated as unspecified until cleared or assigned to; used_memory() of the id sets is only bracketed and required not to "
+         "shrink under element-wise calls; should_gc()'s 5 000 000 limit is not reached; NWRIdSet and RelationsMap::used_memory() do "
+         "not exist in this libosmium version; simulated histories are seeded, the exhaustive part is bounded (5-8 calls, 4-6 ids).",
     technique="TLA+ specs + TLC refinement check; spec-to-code replay of exported histories with per-call comparison"),
  "C11": dict(
     category="model_checking",
@@ -110,14 +123,29 @@ CHECKS = {
          "histories within the bounds and exports every case with its log; the harness runs every case on the real "
          "apply/apply_diff/DiffIterator with real handler objects (14 handler kinds, 10 containers incl. a real Reader, all "
          "buffer cuts for input iterators) and compares the complete callback log (slot, callback, item by address, "
-         "const-ness / prev, curr, next, first, last, end_time).",
+         "const-ness / prev, curr, next, first, last, end_time). Extension, rule-list filters (specs/TagRules.tla, "
+         "harness/tagrules_replay.cpp, checks/C20ext.py): A-layer = the first rule whose matcher matches the tag decides with its "
+         "result, otherwise the default result (matching defined on strings as sequences: equal, prefix, substring, list, regex "
+         "search; TagMatcher = key matches and (no value matcher or (value matches != invert))); a filter iterator over a TagList "
+         "yields exactly the passing tags in order and match_any_of/all_of/none_of are the quantifiers over them. I-layer = the "
+         "rule loop with its early return, CollectionFilterIterator's constructor/advance()/operator++, the legacy Filter's rule "
+         "record, TagMatcher's members, StringMatcher's converting constructors filling a variant and the visitor dispatch onto "
+         "strcmp/compare/strstr/any_of loops. TLC checks I => A on every state plus termination and exports every case; the "
+         "harness builds the real KeyFilter/KeyValueFilter/KeyPrefixFilter/TagsFilter and a real TagList and compares the boolean "
+         "per tag, the yielded tags with ++it and it++, distance/count_if, the quantifiers, every rule's matcher and every "
+         "StringMatcher through both call operators.",
     design_ref="DESIGN.md section 4, C20",
     note="Bounds: item sequences <= 2 (quick) / <= 3 (thorough; <= 4 for the Reader) over all 13 item types (+ removed items); "
          "handler lists: every kind alone, all ordered pairs of 6 kinds, 9 lists of length 3-4 (template combinations are fixed "
          "at compile time, not all 14^4); histories: 5 keys x <= 3 versions, <= 3 buffers. Named deviations modelled as the code "
          "has them (handlers inside DynamicHandler/ChainHandler get no osm_object/sub-item callbacks; removed items are "
          "dispatched; apply_diff has no flush and throws at the first area). Known finding F20c (closure taking const "
-         "memory::Item& is never called) is reported as KNOWN-FINDING. Reader cases limited to node/way/relation/changeset.",
+         "memory::Item& is never called) is reported as KNOWN-FINDING. Reader cases limited to node/way/relation/changeset. "
+         "Extension bounds: strings over two characters up to length 3 incl. the empty string; rule lists <= 3 and tag lists <= 3; "
+         "the complete product only for small template alphabets, larger alphabets as 'long rule list x one tag' and 'one rule x "
+         "long tag list'; std::regex itself is not modelled (literal patterns with '.', '^', '$', the harness checks regex_search "
+         "agrees); StringMatcher::substring modelled as code and unit tests have it (its doc comment says the opposite); thorough "
+         "replays on a second build with -std=c++17 and assertions.",
     technique="TLA+ spec + TLC exhaustive check (refinement invariants, deadlock); spec-to-code replay of all TLC-exported cases with full log comparison"),
  "C17": dict(
     category="model_checking",
